@@ -10,8 +10,8 @@ package main
 // held line, the triggering line itself, a pass-through line while others are
 // held, after the trigger, before a Close).  The histories are judged by the same
 // declarative monitor as every other history (monitors.go); only the short ones
-// also go to the Coq model (a 64 KiB line as a Gallina list literal costs seconds
-// to parse and the model has no length-dependent behaviour).
+// (2^8 neighbourhood) also go to the Coq model (a 64 KiB line as a Gallina list
+// literal costs many seconds to parse and the model has no length-dependent behaviour).
 
 import (
 	"fmt"
@@ -51,7 +51,7 @@ func longKey(cs *caseT) string {
 	return s
 }
 
-const longModelLimit = 4100 // histories whose longest line is at most this long also go to the model
+const longModelLimit = 1500 // histories with at most this many line bytes in all also go to the model
 
 func runLongLines(c *Ctx) {
 	c.OpenShards("From Verif Require Import Base.Prelude Misc.Level Lts.Trigger Harness.C15H.\nOpen Scope Z_scope.",
@@ -60,8 +60,9 @@ func runLongLines(c *Ctx) {
 	emitLong := func(cs *caseT, group string) {
 		obs := runCase(cs)
 		nt := monitorCase(c, cs, obs)
-		longest := 0
+		longest, total := 0, 0
 		for _, o := range cs.Ops {
+			total += len(o.Line)
 			if len(o.Line) > longest {
 				longest = len(o.Line)
 			}
@@ -69,7 +70,7 @@ func runLongLines(c *Ctx) {
 		if longest > maxLen {
 			maxLen = longest
 		}
-		if longest <= longModelLimit {
+		if total <= longModelLimit {
 			c.AddCase(caseTerm(cs, obs), caseJSON(cs, obs))
 			nmodel++
 		}
